@@ -142,9 +142,10 @@ func c19Overlap(a, b []c19Span) bool {
 // ------------------------------------------------------------------ content digest
 
 type c19Digester struct {
-	seen  map[uintptr]int
-	skip  func(owner, field string) bool // fields left out (runtime state)
-	budget int
+	seen    map[uintptr]int
+	skip    func(owner, field string) bool // fields left out (runtime state)
+	budget  int
+	funcNil bool // render function values as nil / non-nil only
 }
 
 var c19OpaqueTypes = map[string]bool{
@@ -225,6 +226,8 @@ func (d *c19Digester) digest(b *strings.Builder, v reflect.Value, depth int) {
 	case reflect.Func:
 		if v.IsNil() {
 			b.WriteString("nilfunc")
+		} else if d.funcNil {
+			b.WriteString("func")
 		} else {
 			fmt.Fprintf(b, "func@%x", c19FuncID(v))
 		}
@@ -412,6 +415,12 @@ var c19RuntimeFields = map[string]bool{
 // and function values included; runtime state, links between the structs and per-client closures left
 // out, their nil-ness kept). extraSkip names further "Owner.field" entries to leave out.
 func c19SettingsDigest(c *Client, extraSkip map[string]bool) map[string]string {
+	return c19SettingsDigestOpt(c, extraSkip, false)
+}
+
+// funcNil: function values count as nil / non-nil only (two calls of a setter that wraps its
+// argument in a new closure yield two different function values)
+func c19SettingsDigestOpt(c *Client, extraSkip map[string]bool, funcNil bool) map[string]string {
 	out := map[string]string{}
 	for _, n := range c19Nodes(c) {
 		t := n.v.Type()
@@ -426,7 +435,10 @@ func c19SettingsDigest(c *Client, extraSkip map[string]bool) map[string]string {
 				}
 				continue
 			}
-			out[name] = c19Digest(f, func(o, fl string) bool { return c19RuntimeFields[o+"."+fl] })
+			d := &c19Digester{seen: map[uintptr]int{}, skip: func(o, fl string) bool { return c19RuntimeFields[o+"."+fl] }, budget: 200000, funcNil: funcNil}
+			var b strings.Builder
+			d.digest(&b, f, 0)
+			out[name] = b.String()
 		}
 	}
 	return out
@@ -832,6 +844,34 @@ func c19Poison(v reflect.Value, n int) reflect.Value {
 		if t.Elem().String() == "http.Cookie" {
 			return reflect.ValueOf(&http.Cookie{Name: fmt.Sprintf("poison%d", n), Value: "1"})
 		}
+	case reflect.Func:
+		// another function value of the same type
+		return reflect.MakeFunc(t, func(args []reflect.Value) []reflect.Value {
+			out := make([]reflect.Value, t.NumOut())
+			for i := range out {
+				out[i] = reflect.Zero(t.Out(i))
+			}
+			return out
+		})
+	case reflect.Struct:
+		c := reflect.New(t).Elem()
+		c.Set(v)
+		for i := 0; i < c.NumField(); i++ {
+			f := c.Field(i)
+			if !f.CanSet() {
+				continue
+			}
+			switch f.Kind() {
+			case reflect.String, reflect.Bool, reflect.Int, reflect.Int8, reflect.Int16, reflect.Int32, reflect.Int64,
+				reflect.Uint, reflect.Uint8, reflect.Uint16, reflect.Uint32, reflect.Uint64:
+				f.Set(c19Poison(f, n))
+			case reflect.Slice:
+				if f.Type().Elem().Kind() == reflect.Slice { // tls.Certificate.Certificate [][]byte
+					f.Set(reflect.MakeSlice(f.Type(), 0, 0))
+				}
+			}
+		}
+		return c
 	}
 	return v
 }
